@@ -276,7 +276,8 @@ func crashInfo(stderr string) (engine bool, frame string, kind string) {
 		if strings.HasPrefix(l, "\t") || l == "" || strings.HasPrefix(l, "goroutine ") {
 			continue
 		}
-		if strings.HasPrefix(l, "runtime.") || strings.HasPrefix(l, "runtime/") || strings.HasPrefix(l, "panic(") ||
+		if strings.HasPrefix(l, "runtime.") || strings.HasPrefix(l, "runtime/") || strings.HasPrefix(l, "runtime:") || strings.HasPrefix(l, "runtime stack:") ||
+			strings.HasPrefix(l, "fatal error:") || strings.HasPrefix(l, "panic(") ||
 			strings.HasPrefix(l, "sync.") || strings.HasPrefix(l, "internal/") || strings.HasPrefix(l, "created by") {
 			continue
 		}
@@ -285,6 +286,29 @@ func crashInfo(stderr string) (engine bool, frame string, kind string) {
 		}
 		frame = l
 		break
+	}
+	if kind == "stack-overflow" {
+		// the frame on top when the stack ran out is arbitrary; name the recursion
+		// instead: the (alphabetically first) engine function that repeats in the stack
+		count := map[string]int{}
+		for _, l := range strings.Split(body, "\n") {
+			if !strings.HasPrefix(l, "lunar/") {
+				continue
+			}
+			if i := strings.LastIndexByte(l, '('); i > 0 {
+				l = l[:i]
+			}
+			count[l]++
+		}
+		best := ""
+		for fn, n := range count {
+			if n >= 3 && (best == "" || fn < best) {
+				best = fn
+			}
+		}
+		if best != "" {
+			frame = best
+		}
 	}
 	return strings.HasPrefix(frame, "lunar/"), frame, kind
 }
